@@ -25,7 +25,8 @@ RULE = (
     'compact blocks; @case after @else; parser / environment histories (after a failed parse, on an environment '
     'left with an open block); a foreign @end at the clause indent; property lines directly inside clauses; '
     'ragged clause bodies. Round 8: conditions that hold none; a nested block inside every clause of a block '
-    'under all truth assignments. Distinct = distinct rendered text.'
+    'under all truth assignments. Round 9: nested conditions that refer to a node defined in the enclosing clause '
+    'only (the text stays valid when that clause is not selected). Distinct = distinct rendered text.'
 )
 ASSUMPTIONS = [
     "conditions inside clauses only refer to nodes defined at the root before the first block",
